@@ -61,7 +61,33 @@ def dec_path(s):
 
 
 def is_optional(f):
-    return f['ty'].startswith('Option<') or f['codec'] == 'custom_nil'
+    return f['ty'].startswith('Option<') or f['codec'] in ('custom_nil', 'custom_nil_opt') or bool(f.get('nilable'))
+
+
+def core_ty(ty):
+    """(tags, innermost type) of a field type after removing the wrappers that do not change the encoding"""
+    tags = []
+    while True:
+        ty = ty.strip()
+        m = re.match(r'^(?:Option|Box)<(.*)>$', ty)
+        if m:
+            ty = m.group(1)
+            continue
+        m = re.match(r'^Tagged<(\d+),\s*(.*)>$', ty)
+        if m:
+            tags.append(int(m.group(1)))
+            ty = m.group(2)
+            continue
+        if ty == 'OptAlias':
+            ty = 'u16'
+            continue
+        return tags, ty
+
+
+def inner_none(ch, fk):
+    """the writer's value of field fk holds a None *inside* a wrapper (Box<Option>, Tagged<N, Option>, transparent newtype)"""
+    top = 'self*.' + fk
+    return any(v == 'None' and k != top and origin_ok(k, fk) for k, v in ch.items())
 
 
 def field_key(f, pos):
@@ -106,7 +132,7 @@ def ref_fields(fields, enc, present, d5=False):
         elif d5 and f is not None and f['tag'] is not None:
             toks.append(('TAG', f['tag']))
             toks.append(('NULL',))
-        elif f is not None and (f['codec'] == 'custom_nil' or f.get('_generic')):
+        elif f is not None and (f['codec'] in ('custom_nil', 'custom_nil_opt') or f.get('_generic')):
             # a nil value of a type with an opaque is_nil/encode pair: the slot holds whatever that type writes for nil
             toks.append(('NULL_OR_VAL', f))
         else:
@@ -117,7 +143,8 @@ def ref_fields(fields, enc, present, d5=False):
 def reference(s, variant, present, d5=False):
     toks = []
     if s.get('transparent'):
-        return [('VAL', s['fields'][0])]
+        f0 = s['fields'][0]
+        return [('VAL', f0)] if present(f0) else [('NULL',)]      # transparent = the field's own encoding; None is null
     if s.get('tag') is not None:
         toks.append(('TAG', s['tag']))
     if s['kind'] != 'enum':
@@ -211,14 +238,20 @@ def item_text(it):
 
 def leaf_kind_ok(f, items):
     """light type check of the first item of a field value against the declared field type"""
-    ty = f['ty']
-    if ty.startswith('Option<'):
-        ty = ty[7:-1]
+    tags, ty = core_ty(f['ty'])
+    for tg in tags:
+        if not (items and items[0][0] == 'TAG' and isinstance(items[0][1], Int) and items[0][1].is_const() and items[0][1].c == tg):
+            return False
+        items = items[1:]
+    if not items:
+        return False
     first = items[0]
     k = first[0]
+    if k == 'NULL' and (re.search(r'(Box|Tagged)<.*Option<', f['ty']) or (f.get('nilable') and f['codec'])):
+        return True       # a None inside a wrapper that is not itself nil: written as an explicit null
     if f['codec'] == 'bytes':
         return k == 'BYTES' or (k == 'ENC')
-    if f['codec'] in ('custom', 'custom_nil'):
+    if f['codec'] in ('custom', 'custom_nil', 'custom_nil_opt'):
         return k == 'ENC' and str(first[1]).startswith('custom:')
     if ty in INT_T:
         return k == 'INT' and first[1] == ty
@@ -230,6 +263,8 @@ def leaf_kind_ok(f, items):
         return k == 'F32'
     if ty == 'f64':
         return k == 'F64'
+    if 'ByteSlice' in ty:
+        return k == 'BYTES'
     if ty in ('String', "&'a str") or ty.startswith('Cow<'):
         return k == 'STR'
     if ty.startswith('Vec<'):
@@ -251,7 +286,7 @@ def match_stream(events, toks):
             bad = [it for it in items if it[0] not in ('ARRAY', 'MAP', 'TAG', 'NULL', 'BREAK', 'BEGIN') and not origin_ok(item_text(it), fk)]
             if bad:
                 return 'slot of field %s (index %d) holds %s' % (f['name'], f['idx'], item_text(bad[0]))
-            if items[0][0] == 'NULL' and not f['ty'].startswith('Option<Option'):
+            if items[0][0] == 'NULL' and not f['ty'].startswith('Option<Option') and not re.search(r'(Box|Tagged)<.*Option<', f['ty']) and not (f.get('nilable') and f['codec']):
                 return 'field %s (index %d) is present but null is written' % (f['name'], f['idx'])
             if not leaf_kind_ok(f, items):
                 return 'field %s: value written as %s, declared type %s' % (f['name'], item_text(items[0]), f['ty'])
@@ -313,13 +348,17 @@ def presence_of(st, fields, generics=()):
         if f['skip']:
             continue
         fk = field_key(f, None)
-        if f['ty'].startswith('Option<'):
-            c = ch.get('self*.' + fk)
-            res[f['name']] = None if c is None else (c == 'Some')
-        elif f['codec'] == 'custom_nil' or f['ty'] in generics:
+        if f['codec'] in ('custom_nil', 'custom_nil_opt') or f['ty'] in generics:
             # custom is_nil / generic parameter: nil-ness is whatever is_nil says
             v = kn.get('is_nil(self*.%s)' % fk)
             res[f['name']] = None if v is None else (v == 0)
+        elif f.get('nilable') and f['codec']:
+            # not spelled Option<..> and a codec without is_nil: the generated code never treats the field as nil
+            # (minicbor-derive encode.rs `is_nil`: `|_| false`), in Encode and CborLen alike; a None is written as its own null
+            res[f['name']] = True
+        elif f['ty'].startswith('Option<') or f.get('nilable'):
+            c = ch.get('self*.' + fk)
+            res[f['name']] = None if c is None else (c == 'Some')
         else:
             res[f['name']] = True
     return res
@@ -551,6 +590,11 @@ def check_decode_over(ctx, rule, key, prog, s, dpath, events, expect, where, lea
                 elif exp[2] and not txt.startswith(exp[2]):
                     ctx.violation(rule, key + '|borrow:' + fname, 'field %s should borrow from the input (%s...), got %s' % (fname, exp[2], txt[:80]), where)
                     good = False
+            elif exp[0] == 'inner-none':
+                txt = repr(got)
+                if val_is_none(got) or 'Option#0()' not in txt:
+                    ctx.violation(rule, key + '|field:' + fname, 'field %s decodes to %s, expected the written value (a None inside its wrapper)' % (fname, txt[:80]), where)
+                    good = False
             elif exp[0] == 'variant':
                 inner_v = got.fields[0] if val_is_some(got) else None
                 adv = prog.adts.get(inner_v.adt) if isinstance(inner_v, Adt) else None
@@ -575,8 +619,9 @@ def check_decode_over(ctx, rule, key, prog, s, dpath, events, expect, where, lea
     return good
 
 
-def expectation(s, v, pres, fields=None):
+def expectation(s, v, pres, fields=None, ch=None):
     exp = {}
+    ch = ch or {}
     fields = fields if fields is not None else (v['fields'] if v is not None else s['fields'])
     if v is not None:
         exp['__variant__'] = v['name']
@@ -590,10 +635,34 @@ def expectation(s, v, pres, fields=None):
             borrow = None
             if f['b'] and f['ty'].startswith('Cow<'):
                 borrow = 'Cow#0'
-            exp[fk] = ('origin', fk, borrow)
+            if f.get('nilable') and f['codec'] and ch.get('self*.' + fk) == 'None':
+                exp[fk] = ('none',)     # written as an explicit null, read back as None
+            elif inner_none(ch, fk):
+                exp[fk] = ('inner-none', fk)
+            else:
+                exp[fk] = ('origin', fk, borrow)
         else:
-            exp[fk] = ('none',) if f['ty'].startswith('Option<') else ('any',)
+            exp[fk] = ('none',) if (f['ty'].startswith('Option<') and f['codec'] != 'custom_nil_opt') or f.get('nilable') else ('any',)
     return exp
+
+
+def nil_pair(ctx, prog, krates, rule='NIL-PAIR'):
+    """A type whose Encode impl overrides is_nil (so derived encoders may omit its nil value) and which also implements Decode
+    must override Decode::nil as well - otherwise a derived decoder reports the omitted field as missing (documented on
+    Encode::is_nil).  Decided from the impl tables: which provided methods each impl overrides."""
+    enc = dict((i['self_ty'], i) for i in prog.impls if i['trait'] in ('minicbor::encode::Encode', 'minicbor::bytes::EncodeBytes') and i['krate'] in krates)
+    dec = dict((i['self_ty'], i) for i in prog.impls if i['trait'] in ('minicbor::decode::Decode', 'minicbor::bytes::DecodeBytes') and i['krate'] in krates)
+    n = 0
+    for t in sorted(set(enc) & set(dec)):
+        n += 1
+        e_nil = 'is_nil' in (enc[t].get('items') or [])
+        d_nil = 'nil' in (dec[t].get('items') or [])
+        if e_nil and not d_nil:
+            ctx.violation(rule, t, 'Encode for %s overrides is_nil but Decode does not override nil: a nil value of this type in a derived struct is omitted by the writer and reported as a missing field by the reader' % t,
+                          mir.loc(enc[t].get('sp')))
+        else:
+            ctx.ok(rule, t, nontrivial=e_nil or d_nil)
+    return n
 
 
 def c09(ctx, schemas=None, prog=None):
@@ -620,7 +689,7 @@ def c09(ctx, schemas=None, prog=None):
                 if pres[k_] is None:
                     pres[k_] = True
             key = '%s|%s|%s' % (label, v['name'] if v else '-', pv_key(pres))
-            exp = expectation(s, v, pres) if not s.get('transparent') else {field_key(s['fields'][0], None): ('origin', field_key(s['fields'][0], None), None)}
+            exp = expectation(s, v, pres, ch=summaries.choices(o.st))
             n += 1
             if check_decode_over(ctx, 'S-RT.derive', key, prog, s, dec_path(s), o.st.events, exp, where, from_state=o.st):
                 ctx.ok('S-RT.derive', key)
